@@ -626,7 +626,8 @@ static std::vector<Block> blocks(int tier) {
     for (int sw = 0; sw < 32; ++sw)
       for (int cache = 0; cache < 3; ++cache) {
         const std::string tag = "-sw" + std::to_string(sw) + "-c" + std::to_string(cache);
-        add("cyl8-rt" + tag, cyl8, (sw % 2) ? g7 : g7a, "rt", sw, 1 + (sw / 2) % 2, cache, upto(5), true, 4, sw == 31 && cache == 0, (sw % 4 == 3) ? 2 : 0, 50);
+        const bool otf = sw == 31 && cache == 0;   // the on-the-fly projector is compared with one tangential ray, default switches
+        add("cyl8-rt" + tag, cyl8, (sw % 2) ? g7 : g7a, "rt", sw, otf ? 1 : 1 + (sw / 2) % 2, cache, upto(5), true, 4, otf, (sw % 4 == 3) ? 2 : 0, 50);
       }
     for (int cache = 0; cache < 3; ++cache)
       for (int sw : { 31, 30, 29, 27, 23, 15, 0 }) {
